@@ -2,6 +2,7 @@ package modifiers
 
 import (
 	"encoding/json"
+	"slices"
 
 	"github.com/nyaruka/gocommon/urns"
 	"github.com/nyaruka/goflow/assets"
@@ -47,10 +48,10 @@ func NewURNs(urnz []urns.URN, modification URNsModification) *URNsModifier {
 
 // Apply applies this modification to the given contact
 func (m *URNsModifier) Apply(eng flows.Engine, env envs.Environment, sa flows.SessionAssets, contact *flows.Contact, log flows.EventCallback) bool {
-	modified := false
+	oldURNs := contact.URNs().RawURNs()
 
 	if m.Modification == URNsSet {
-		modified = contact.ClearURNs()
+		contact.ClearURNs()
 	}
 
 	for _, urn := range m.URNs {
@@ -60,14 +61,15 @@ func (m *URNsModifier) Apply(eng flows.Engine, env envs.Environment, sa flows.Se
 			log(events.NewErrorf("'%s' is not valid URN", urn))
 		} else {
 			if m.Modification == URNsAppend || m.Modification == URNsSet {
-				modified = contact.AddURN(urn, nil)
+				contact.AddURN(urn, nil)
 			} else {
-				modified = contact.RemoveURN(urn)
+				contact.RemoveURN(urn)
 			}
 		}
 	}
 
-	if modified {
+	// only generate event if contact's URNs actually changed
+	if !slices.Equal(oldURNs, contact.URNs().RawURNs()) {
 		log(events.NewContactURNsChanged(contact.URNs().RawURNs()))
 		return true
 	}
